@@ -98,7 +98,7 @@ def mk(op, a, b):
     if op == '*' and (isc(a, 0) or isc(b, 0)): return lift(0)
     if op == '*' and isc(a, 1): return b
     if op in '*/' and isc(b, 1): return a
-    if op == '/' and isc(a, 0) and isc(b): return lift(0)
+    if op == '/' and isc(a, 0): return lift(0)          # definedness (b != 0) is tracked by the executor
     if op == '-' and a is b: return lift(0)
     return _intern(T, op, (a, b))
 
@@ -467,3 +467,15 @@ def evb3(b, env, memo=None, K=64.0):
     if k == '!=': return True
     if k in ('<', '<='): return d < 0
     return d > 0
+
+
+def defined_conds(*ts):
+    """definedness side conditions of the operations inside terms: every denominator != 0, every log argument > 0"""
+    out = []
+    def f(n):
+        if isinstance(n, T):
+            if n.op == '/': out.append(ne(n.a[1], 0))
+            elif n.op == 'log': out.append(cmp('>', n.a[0], 0))
+    seen = set()
+    for t in ts: walk(t, f, seen)
+    return [c for c in out if c is not TRUE]
